@@ -7,7 +7,13 @@
    memo: equal instants written with different UTC offsets compare and hash equal); a timedelta goes through
    _isoduration, an lru_cache keyed on timedelta equality.  A timedelta of the model IS its normalised triple
    (days, seconds, microseconds): that is what timedelta equality and hashing look at whatever the constructor
-   spelling or subclass (pendulum.Duration), and -- with proposed_fixes/C04-9 -- what the writer reads ([+td]). *)
+   spelling or subclass (pendulum.Duration), and -- with proposed_fixes/C04-9 -- what the writer reads ([+td]).
+
+   Round 4: the same histories over the NON-temporal scalar kinds (int, bool, float, Decimal, Fraction, UUID, path,
+   str).  Nothing the scalar marshallers / unmarshal(str | bytes, .) do keeps state: each call writes str(v) afresh
+   ([iso_step] falls through to [canon_text rt v], which for these kinds is str(v)), so a value formatted after an
+   equal one of another spelling or another class (Decimal('2.00') after Decimal('2.0'), Decimal('0.5') after
+   Fraction(1, 2), 1 after True or 1.0) gets its own text. *)
 From Coq Require Import List ZArith Ascii String Bool.
 Import ListNotations.
 Require Import TL.Model.Duration.
@@ -38,14 +44,23 @@ Definition iso_step (m : memo) (v : val) : memo * string :=
 Definition hop_out (o : hop) (t : string) : val :=
   match o with HBytes => VText CBytes (utf8_encode rt t) | _ => VText CStr t end.
 
+(* what the operation hands back for the VALUE [v] whose text is [t]: marshalling a number or a bool hands the
+   value itself back (IntegerMarshaller / FloatMarshaller / BoolMarshaller on a value of their own class, None too);
+   every other scalar kind of U is written out -- ToStringMarshaller (str, Decimal, Fraction, UUID, path):
+   str(v); ToISOTimeMarshaller: serdes.isoformat(v) -- and so is everything handed to unmarshal(str | bytes, .) *)
+Definition emit (o : hop) (v : val) (t : string) : val :=
+  match o, v with
+  | HMarshal, (VNone | VBool _ | VInt _ | VFloat _) => v
+  | _, _ => hop_out o t end.
+
 (* the observations of a history, caches shared along it *)
 Fixpoint run_hist (m : memo) (h : list (hop * val)) : list val :=
   match h with
   | [] => []
-  | (o, v) :: r => let '(m', t) := iso_step m v in hop_out o t :: run_hist m' r end.
+  | (o, v) :: r => let '(m', t) := iso_step m v in emit o v t :: run_hist m' r end.
 
 (* the same calls, each made with every cache empty *)
 Definition run_cold (h : list (hop * val)) : list val :=
-  map (fun ov => hop_out (fst ov) (isoformat rt (snd ov))) h.
+  map (fun ov => emit (fst ov) (snd ov) (isoformat rt (snd ov))) h.
 
 End WithRuntime.
